@@ -1,7 +1,7 @@
 """C09: lowering profile for StreamAckManager / QXmppPacket (interval+witness model of QMap<uint, QXmppPacket>,
 promise identities, wire log; opaque strings and abstract DOM for handleStanza and the two fromDom parsers)."""
 import re
-from vlib.cxx2c import Unsupported, strip_amp, line_of, qt
+from vlib.cxx2c import Lowerer, Unsupported, strip_amp, line_of, qt
 from vlib.opaque_profile import opaque_profile
 
 SR = 'std::variant<QXmpp::SendSuccess,QXmppError>'
@@ -23,9 +23,22 @@ TYPES = {
     'std::tuple<bool,QXmppTask<SendResult>>': 'SendTuple', 'std::tuple<bool,QXmppTask<QXmpp::SendResult>>': 'SendTuple',
     'std::tuple<bool,QXmppTask<%s>>' % SR: 'SendTuple',
     'QXmpp::Private::StreamAckManager': 'StreamAckManager', 'StreamAckManager': 'StreamAckManager',
+    'QXmppOutgoingClient': 'QXmppOutgoingClient',
+    'QXmpp::Private::C2sStreamManager': 'C2sStreamManager', 'C2sStreamManager': 'C2sStreamManager',
+    'QXmpp::Private::SmResumed': 'SmResumed', 'SmResumed': 'SmResumed',
+    'QXmpp::Private::SmResume': 'SmResume', 'SmResume': 'SmResume',
+    'QXmpp::Private::SmEnabled': 'SmEnabled', 'SmEnabled': 'SmEnabled',
+    'std::optional<SmResume>': 'OptSmResume', 'std::optional<QXmpp::Private::SmResume>': 'OptSmResume',
+    'Sasl2::Authenticate': 'Sasl2Authenticate', 'QXmpp::Private::Sasl2::Authenticate': 'Sasl2Authenticate',
+    'Sasl2::StreamFeature': 'Sasl2StreamFeature', 'QXmpp::Private::Sasl2::StreamFeature': 'Sasl2StreamFeature',
+    'std::variant<NoRequest,ResumeRequest,EnableRequest>': 'sm_request',
+    'std::variant<QXmpp::Private::C2sStreamManager::NoRequest,QXmpp::Private::C2sStreamManager::ResumeRequest,QXmpp::Private::C2sStreamManager::EnableRequest>': 'sm_request',
+    'QXmpp::Private::C2sStreamManager::ResumeRequest': 'ResumeRequest', 'ResumeRequest': 'ResumeRequest',
+    'QXmppPromise<void>': 'vpromise_id', 'QXmppTask<void>': 'vtask_id',
 }
 CLASS_TYPES = {'QMapUP', 'QMapUP_it', 'QXmppPacket', 'WireBytes', 'XmppSocket', 'SmAck', 'SmRequest', 'OptSmAck', 'OptSmRequest',
-               'SendTuple', 'StreamAckManager'}
+               'SendTuple', 'StreamAckManager', 'QXmppOutgoingClient', 'C2sStreamManager', 'SmResumed',
+               'SmResume', 'SmEnabled', 'OptSmResume', 'Sasl2Authenticate', 'Sasl2StreamFeature'}
 
 
 def member_ret(cname, ctype):
@@ -71,7 +84,7 @@ def from_dom(lw, node, args):
 def serialize_xml(lw, node, args):
     a = lw.skip(node['inner'][1])
     t = lw.ntype(a)
-    fn = {'SmAck': 'serializeXml_SmAck', 'SmRequest': 'serializeXml_SmRequest'}.get(t)
+    fn = {'SmAck': 'serializeXml_SmAck', 'SmRequest': 'serializeXml_SmRequest', 'SmResume': 'serializeXml_SmResume'}.get(t)
     if fn is None:
         raise Unsupported('serializeXml of %s' % t)
     tmp = lw.newtmp()
@@ -85,6 +98,9 @@ def std_move(lw, node, args):
 
 
 def tuple_get(lw, node, args):
+    if lw.tkey(lw.skip(node['inner'][1])) == 'sm_request':
+        # std::get<ResumeRequest>(m_request): the alternative itself (its only member, the request's promise, is a ghost id)
+        return 'gh_request_alt'
     m = re.search(r'__tuple_element_t<(\d+)', qt(lw.skip(node['inner'][0])) + ' ' + qt(node))
     if not m:
         raise Unsupported('std::get without a readable index')
@@ -147,8 +163,26 @@ def rangefor_desugared(lw, n, rinit, lv, body, ind):
     lw.loop(None, cond, inc, {'kind': 'CompoundStmt', 'inner': [lvd, body]}, ind)
 
 
+class C09Lowerer(Lowerer):
+    """Q_ASSERT(cond) is compiled to static_cast<void>(false && (cond)) in the verified configuration: cond is never
+    evaluated; it is dropped (and listed) provided it is side-effect free"""
+
+    def cast(self, n):
+        if n.get('castKind') == 'ToVoid':
+            sub = self.skip(n['inner'][0])
+            if sub.get('kind') == 'BinaryOperator' and sub.get('opcode') == '&&':
+                left = self.skip(sub['inner'][0])
+                if left.get('kind') == 'CXXBoolLiteralExpr' and not left.get('value') and self.pure(sub['inner'][1]):
+                    self.fire('Q_ASSERT:compiled-out')
+                    self.dropped.append({'call': 'Q_ASSERT(cond) = static_cast<void>(false && (cond))', 'line': line_of(n)})
+                    return '((void)0)'
+        return super().cast(n)
+
+
 def profile():
     return opaque_profile(
+        pure_fns={'holds_alternative'},
+        field_rules={'ResumeRequest::p': 'gh_request_promise'},
         types=TYPES,
         class_types=CLASS_TYPES,
         calls={
@@ -187,6 +221,16 @@ def profile():
             'StreamAckManager::sendAcknowledgement/0': ('callee', 'StreamAckManager_sendAcknowledgement'),
             'StreamAckManager::setAcknowledgedSequenceNumber/1': ('callee', 'StreamAckManager_setAcknowledgedSequenceNumber'),
             'StreamAckManager::handleAcknowledgement/1': ('callee', 'StreamAckManager_handleAcknowledgement'),
+            'StreamAckManager::enableStreamManagement/1': ('callee', 'StreamAckManager_enableStreamManagement'),
+            # C2sStreamManager: q->streamAckManager() is the getter of the client's one StreamAckManager
+            'QXmppOutgoingClient::streamAckManager/0': ('expr', '{0}->ack'),
+            'QXmppOutgoingClient::xmppSocket/0': ('expr', '{0}->sock'),
+            'StreamAckManager::lastIncomingSequenceNumber/0': ('callee', 'StreamAckManager_lastIncomingSequenceNumber'),
+            'C2sStreamManager::setResumeAddress/1': ('callee', 'C2sStreamManager_setResumeAddress'),
+            'expr:InitListExpr:SmResume': init_aggregate('SmResume'),
+            'op=:OptSmResume:SmResume': ('expr', '{v0}.has = true, {v0}.v = {v1}'),
+            'op=:sm_request:ResumeRequest': ('expr', '{v0} = SMREQ_RESUME'),
+            'vpromise_id::task/0': ('expr', '(vtask_id){0}'),
             # socket and nonzas
             'XmppSocket::sendData/1': ('fn', 'XmppSocket_sendData'),
             'fn:serializeXml/1': serialize_xml,
